@@ -43,6 +43,21 @@ fn one_target<T: Elem>(ctx: &mut Ctx, t: Target<T>) {
             run.go(T::zero(), a, b);
         }
     }
+    // lengths far beyond the register geometry (thresholds of blocked code paths)
+    if t.r.dims.is_none() {
+        for &len in vals::LARGE_LENGTHS.iter() {
+            if run.ctx.out_of_time() {
+                break;
+            }
+            for rep in 0..2 {
+                let a: Vec<T> = (0..len).map(|i| if rep == 0 { vals::mixed(&mut rng, &bounds, false) } else { T::from_i128((i as i128 % 11) + 1) }).collect();
+                let b: Vec<T> = (0..len).map(|i| if rep == 0 { vals::mixed(&mut rng, &bounds, false) } else { T::from_i128((i as i128 % 5) + 2) }).collect();
+                let b = bvec(&run, b);
+                run.go(T::zero(), a, b);
+            }
+        }
+        run.tally.add("class:large_lengths", 1);
+    }
     // constant vectors: every boundary pair at a few lengths
     let mut clens: Vec<usize> = match t.r.dims {
         Some(d) => vec![d],
